@@ -56,6 +56,14 @@ CHECKS = {
    "Stateless preemption-bounded search over ALL interleavings of two (thorough: also three) transaction programs on the real cache manager: manager.go is compiled with its sync / sync/atomic imports redirected (build overlay generated from the working tree) to cooperative shims, so every Lock/RLock/TryRLock/Unlock and atomic.Bool operation is a scheduling point; 12 transaction shapes x evictor x manager size {-1,0,1,10} x initial map; quick: 936 pair programs with <=1 preemption and 72 with <=2 (3.2M complete executions), thorough: all pairs <=2, triples <=1, core <=3. Monitors: writer isolation, no uncommitted state observed, scrapped caches never handed out, shared caches reflect committed storage, deadlock freedom, final write+commit probe on every cache.",
    "storage is a stand-in (per-cache committed version + per-shard single-writer token); sequentially consistent interleavings of the shimmed operations; usage protocol of the shard (each With returns before Commit)",
    "stateless DFS over schedules of the real code under a controlled scheduler, iterative preemption bounding", "DESIGN.md §4 C11"),
+ "C07": (True, "faultx", "fault_enumeration",
+   "For 24 (start state x batch) cases incl. the four validation rejections and an index whose construction fails: a counting run, then one run per fault point - every (bucket, kind in Put/Delete/ForEach/Scan/BucketOpen/TxBegin, ordinal) the batch issues (670 points) failing exactly that operation through the storage proxy installed with the verif accessor hook - and a run taking a crash image of the database file at every storage operation, at function-return and after commit (1011 images). Failed call: observation battery + raw bucket digest identical to before on the running instance and after reopen; successful call: equals the reference model; images before commit = state before, after commit = model after; storage use after transaction end is recorded instead of crashing.",
+   "Get cannot fail in the storage API; torn writes inside bbolt's own commit are trusted; goroutine interleavings inside a batch are those the real scheduler produced",
+   "exhaustive enumeration of fault points and crash points of a write history on the real write path", "DESIGN.md §4 C07"),
+ "C12": (True, "schedx", "model_checking",
+   "Stateless preemption-bounded search over all interleavings of requests, collection deletion and the idle timer on the real ShardManager with real bbolt shard files: shardmgr.go is built with its sync and time imports redirected to scheduler shims (cooperative locks; a virtual timer whose firing is a controller transition enabled at every scheduling point while armed); channel operations stay real and quiescence is a stop-the-world goroutine snapshot. Quick: 7 two-thread programs with <=1 preemption, 3 three-thread programs with 0 (81k complete executions); thorough: 28 programs, bounds 0..2. Invariants: callback only on a usable handle or a clean error, one descriptor per shard file, files present during a request, no deadlock, final probe loads every shard.",
+   "timer fires only at quiescent points (cleanup goroutine in its select); Go>=1.23 timer contract; sequentially consistent lock shims",
+   "stateless DFS over schedules of the real code under a controlled scheduler with a virtual timer, iterative preemption bounding", "DESIGN.md §4 C12"),
 }
 
 props = [json.loads(l) for l in open(os.path.join(HERE, "properties.jsonl"))]
